@@ -9,7 +9,7 @@
    eng_run         : histories of (positions, engine force field, bias force on the variable), engine convention per
                      cv_samestep, "includecv" = the engine's total force contains the forces Colvars applied. *)
 From Coq Require Import ZArith List Bool Arith Reals Lra.
-From CV Require Import Base.Num Base.RNum C07.TotalForceModel C07.TotalForceProofs.
+From CV Require Import Base.Num Base.RNum C07.TotalForceModel C07.TotalForceProofs C07.DivergenceProofs.
 Import ListNotations.
 Local Open Scope R_scope.
 
@@ -339,6 +339,35 @@ Theorem C07_jacobian_angle : forall (cell : option RV) (mass : nat -> R) (pos : 
 Proof. exact thm_jacobian_angle. Qed.
 Print Assumptions C07_jacobian_angle.
 
+
+(* ------------------------------------------------------------------ the Jacobian term is the divergence of the inverse gradient field
+   (DivergenceProofs.v, Coquelicot derivatives).  ufield w = w/|w|;  div3 f p s : the field f : R^3 -> R^3 has, at p, partial derivatives
+   d f_x/dx, d f_y/dy, d f_z/dz (is_derive) whose sum is s.  For the distance (no periodic cell) the measurement projects the forces on the
+   two centres of mass on the fields -u/2 and +u/2 (one site: -u), u the unit vector from centre 1 to centre 2; the sum of their
+   divergences with respect to the centre they displace is the component's Jacobian derivative 2/d. *)
+Theorem C07_distance_inverse_gradient_field : forall (mass : nat -> R) (pos : RF) (g1 g2 : RG) (F : RF),
+  let r1 := gcom Rops mass pos g1 in let r2 := gcom Rops mass pos g2 in
+  0 < vnorm2 Rops (vsub Rops r2 r1) ->
+  cvc_ft Rops PI None mass pos (CDistance g1 g2 false) F =
+    vdot Rops (gforce Rops F g1) (vscale Rops (- (1 / 2)) (ufield (vsub Rops r2 r1))) +
+    vdot Rops (gforce Rops F g2) (vscale Rops (1 / 2) (ufield (vsub Rops r2 r1))) /\
+  cvc_ft Rops PI None mass pos (CDistance g1 g2 true) F =
+    vdot Rops (gforce Rops F g1) (vscale Rops (- 1) (ufield (vsub Rops r2 r1))).
+Proof. exact distance_ft_fields. Qed.
+Print Assumptions C07_distance_inverse_gradient_field.
+Theorem C07_jacobian_is_divergence_distance : forall (mass : nat -> R) (pos : RF) (g1 g2 : RG),
+  let r1 := gcom Rops mass pos g1 in let r2 := gcom Rops mass pos g2 in
+  0 < vnorm2 Rops (vsub Rops r2 r1) ->
+  (exists s1 s2,
+     div3 (fun q => vscale Rops (- (1 / 2)) (ufield (vsub Rops r2 q))) r1 s1 /\
+     div3 (fun q => vscale Rops (1 / 2) (ufield (vsub Rops q r1))) r2 s2 /\
+     s1 + s2 = cvc_jd Rops PI None mass pos (CDistance g1 g2 false)) /\
+  (exists s1, div3 (fun q => vscale Rops (- 1) (ufield (vsub Rops r2 q))) r1 s1 /\
+     s1 = cvc_jd Rops PI None mass pos (CDistance g1 g2 true)).
+Proof. exact distance_jd_divergence. Qed.
+Print Assumptions C07_jacobian_is_divergence_distance.
+Example C07_ex_distinct_centres : 0 < vnorm2 Rops (vsub Rops (gcom Rops ex_mass ex_pos (G 1)) (gcom Rops ex_mass ex_pos (G 0))).
+Proof. exact ex_distinct_centres. Qed.
 
 (* ------------------------------------------------------------------ the premises are satisfiable.
    System: unit masses; atoms 0..3 at (1,0,0) (0,0,0) (0,1,0) (0,1,1); G a = the group made of atom a. *)
